@@ -16,6 +16,10 @@ def main():
     chk.bounds.append('E2 meta-matrix slice: PowerRow/Col/Diag/Full and SaddlePoint matrices over CSR blocks (3 block variants incl. entry-free blocks and empty rows) converted to one SparseMatrixCSR; PowerDiag scale_rows / scale_cols')
     chk.functions += ['LAFEM::SparseMatrixCSR::convert(const MT_&) for PowerRowMatrix / PowerColMatrix / PowerDiagMatrix / PowerFullMatrix / SaddlePointMatrix', 'get_length_of_line / set_line of the meta matrices', 'LAFEM::PowerDiagMatrix::{scale_rows,scale_cols}']
     e2prop.run_e2(chk, e2prop.e2_harness_path('c02m_e2.cpp'), 'c02m_e2', timeout=60, harness_args=[], max_group=1)
+    # blocked slice: BCSR<2,3> clone modes, index-type conversion, permutation, construction from a Graph
+    chk.bounds.append('E2 blocked slice: SparseMatrixBCSR<2,3> with 1..2 x 1..2 blocks and every pattern with 1..3 blocks: all 5 clone modes, conversion u64 -> u32 -> u64, every row x column permutation, construction from a Graph')
+    chk.functions += ['LAFEM::SparseMatrixBCSR<SymReal,Index,2,3>::{clone (5 modes), convert(other index type), permute, SparseMatrixBCSR(Graph)}']
+    e2prop.run_e2(chk, e2prop.e2_harness_path('c02b_e2.cpp'), 'c02b_e2', timeout=60, harness_args=[], max_group=1)
     return chk.finish(
         explanation='Bounded symbolic check: transposition, cloning, format/index-type conversion, permutation and layout rebuilding of the real LAFEM classes are executed for every pattern / mode / permutation inside the bound with symbolic values; the result must represent the same (resp. transposed, permuted) dense matrix for ALL values, have the correct dimensions and a structurally valid layout; clone aliasing is checked by pointer identity and by writing through the clone.',
         rule=e2prop.E2_RULE, trusted=e2prop.E2_TRUSTED)
